@@ -24,9 +24,10 @@ REPO = os.environ.get("VERIF_REPO", "/repo")
 COQ = os.path.join(VERIF, "coq")
 OCAML = os.path.join(VERIF, "ocaml")
 HARNESS = os.path.join(VERIF, "harness")
-EVIDENCE = os.path.join(VERIF, "evidence")
-REPLAYS = os.path.join(EVIDENCE, "replays")
 CACHE = os.path.expanduser("~/.cache/servitor-verif")
+# evidence describes runs on /repo; runs on another tree (VERIF_REPO: mutation experiments) write theirs elsewhere
+EVIDENCE = os.path.join(VERIF, "evidence") if REPO == "/repo" else os.path.join(CACHE, "evidence-other-tree")
+REPLAYS = os.path.join(EVIDENCE, "replays")
 KNOWN = os.path.join(VERIF, "known_findings.txt")
 
 GOENV = dict(os.environ, GOFLAGS="-mod=mod", GOPROXY="off", GOSUMDB="off", GOTOOLCHAIN="local",
